@@ -1219,6 +1219,7 @@ package fosite
 //@   modifies everything
 //@   assert @call(IntrospectToken)#1 [C09.caller-lookup-uses-a-copy-of-the-session] $arg4 != nil && $arg4 != session
 //@   assert @call(checkClientSecret)#1 [C09.caller-authenticated] bearer_of(r) == "" && basic_ok(r) && unesc_ok(basic_user(r)) && unesc_ok(basic_pass(r)) && client == client_of[unesc(basic_user(r))] && clientSecret == unesc(basic_pass(r))
+//@   assert @call(IntrospectToken)#2 [C09.caller-token-is-a-different-token] bearer_of(r) != "" ==> strings.TrimPrefix(token, "ory_at_") != strings.TrimPrefix(bearer_of(r), "ory_at_")
 //@   assert @call(IntrospectToken)#2 [C09.caller-authenticated] (bearer_of(r) != "" && token != bearer_of(r) && intro_accepts > old(intro_accepts)) || (bearer_of(r) == "" && secret_ok_n > old(secret_ok_n))
 //@   ensures [C09.inactive-nothing-but-false] err != nil ==> result != nil && !cast(result, *IntrospectionResponse).Active && cast(result, *IntrospectionResponse).AccessRequester == nil && cast(result, *IntrospectionResponse).TokenUse == ""
 //@   ensures [C09.active-needs-accepted-token] err == nil ==> result != nil && cast(result, *IntrospectionResponse).Active && intro_accepts > old(intro_accepts)
